@@ -179,6 +179,18 @@ func (rs *bodyStream) Read(p []byte) (int, error) {
 	if rs.offset == rs.contentLength {
 		return 0, io.EOF
 	}
+	// a body of known length never yields more than that length, neither from
+	// the pre-read buffer (which may hold bytes that follow the body) nor from
+	// the wire (where they belong to the next message on the connection)
+	if rs.contentLength >= 0 {
+		remain := rs.contentLength - rs.offset
+		if remain <= 0 {
+			return 0, io.EOF
+		}
+		if len(p) > remain {
+			p = p[:remain]
+		}
+	}
 	var n int
 	var err error
 	// read from the pre-read buffer
@@ -195,14 +207,9 @@ func (rs *bodyStream) Read(p []byte) (int, error) {
 
 	// read from the wire
 	m := len(p) - n
-	// never read past the end of a fixed-size body: the bytes behind it
-	// belong to the next message on the connection
-	if remain := rs.contentLength - rs.offset; rs.contentLength >= 0 && m > remain {
-		m = remain
-	}
 
 	if conn, ok := rs.reader.(io.Reader); ok {
-		m, err = conn.Read(p[n : n+m])
+		m, err = conn.Read(p[n:])
 	} else {
 		var tmp []byte
 		tmp, err = rs.reader.Peek(m)
